@@ -166,7 +166,7 @@ def simulate(ck, case):
   if ol:
     src, spec, feeds = G.generate_openloop(drng, case['dseed'], case['depth'], case.get('methods', 2) == 2)
   else:
-    src, spec = G.generate(drng, case['dseed'], case['depth'], case.get('big', False), case.get('nonpure'))
+    src, spec, reps = G.generate(drng, case['dseed'], case['depth'], case.get('big', False), case.get('nonpure'), case.get('nrep', 0))
   mod, modname = load_module(ck, src, case['dseed'])
   r = Run(); r.src = src; r.spec = spec
   try:
@@ -174,6 +174,14 @@ def simulate(ck, case):
     r.sigs = sigs
     top = getattr(mod, spec.name)()
     top.elaborate()
+    if not ol:
+      # post-elaboration replacement of child components (list elements, plain attributes) by classes with the same ports
+      for path, cls, with_obj in reps:
+        o = top
+        for e in path: o = resolve(o, e)
+        if with_obj: top.replace_component_with_obj(o, getattr(mod, cls)())
+        else: top.replace_component(o, getattr(mod, cls))
+      r.nrep = len(reps)
     # readers: (component object path, signal expr) -> value
     def comp_of(path):
       o = top
@@ -330,6 +338,8 @@ def check_design(ck, case, r, lines_out):
                             'oracle': 'strict independent VCD reader: the dump must be well-formed VCD'})
     return None
   decls, events = vcd['decls'], vcd['events']
+  if vcd['dup_scopes']:
+    viol('duplicate-scope', {'scopes': ['.'.join(x) for x in vcd['dup_scopes'][:5]]})
   dmap = {}
   for sc, name, w, sym in decls:
     if (sc, name) in dmap: viol('duplicate-declaration', {'scope': sc, 'name': name})
@@ -426,9 +436,12 @@ def check_design(ck, case, r, lines_out):
   data = [j for j in range(len(net_syms)) if j != clk]
   trace = [[samples[t][reps[j]] for j in data] for t in range(N)]
   sig_net = [net_idx[d[1]] for d in sig_decl]
+  # the model's reader is run on at most 60 declarations per design (it rescans the file for every cycle)
+  step = max(1, -(-len(sig_decl) // 60))
+  rsel = list(range(0, len(sig_decl), step))
   reqs = [
     leanio.line('vcd', 'dump', widths, clk, [0] * len(widths), trace),
-    leanio.line('vcd', 'replay', [(d[0], sym_codes(d[1])) for d in sig_decl], events_sexp(events), N),
+    leanio.line('vcd', 'replay', [(sig_decl[i][0], sym_codes(sig_decl[i][1])) for i in rsel], events_sexp(events), N),
     leanio.line('vcd', 'decls', widths, clk, sig_net),
     leanio.line('vcd', 'edges', sym_codes(clk_sym), events_sexp(events)),
   ]
@@ -451,7 +464,7 @@ def check_design(ck, case, r, lines_out):
       seen.add(v); prev = v
   shared = len(sig_decl) - len(set(d[1] for d in sig_decl))
   ctx = {'vcd': vcd, 'sig_decl': sig_decl, 'is_clock': is_clock, 'samples': samples, 'N': N, 'clk_sym': clk_sym,
-         'want_clk': want_clk, 'rep': rep, 'tw_keys': tw_keys, 'extra': extra, 'widths': widths, 'net_syms': net_syms,
+         'want_clk': want_clk, 'rep': rep, 'tw_keys': tw_keys, 'rsel': rsel, 'extra': extra, 'widths': widths, 'net_syms': net_syms,
          'stats': (changing, constant, revisit, shared)}
   lines_out.append((case, r, reqs, ctx))
   return ctx
@@ -480,15 +493,16 @@ def compare_model(ck, case, r, replies, ctx):
   if len(rows) != N: raise InfraError('replay reply shape')
   for t in range(N):
     row = rows[t]
-    for i, d in enumerate(sig_decl):
+    for k, i in enumerate(ctx['rsel']):
+      d = sig_decl[i]
       tok = ctx['rep'][t].get(d[1]); pv = None if tok is None else VP.value_of(tok)
-      mv = None if row[i] == 'x' else int(row[i])
+      mv = None if row[k] == 'x' else int(row[k])
       # the model reader is strict about the digit count; the python reader is not
       if mv != pv:
-        ck.disagreement('Model/VCD.replay == python reader', case, {'cycle': t, 'signal': i, 'model': row[i]}, {'python': pv, 'token': tok})
+        ck.disagreement('Model/VCD.replay == python reader', case, {'cycle': t, 'signal': i, 'model': row[k]}, {'python': pv, 'token': tok})
         return
       if not ctx['is_clock'][i] and mv != ctx['samples'][t][i]:
-        ck.disagreement('Model/VCD.replay(file) == samples', case, {'cycle': t, 'signal': i, 'model': row[i]}, ctx['samples'][t][i])
+        ck.disagreement('Model/VCD.replay(file) == samples', case, {'cycle': t, 'signal': i, 'model': row[k]}, ctx['samples'][t][i])
         return
   # (4) declarations: width and symbol of every signal
   md = leanio.parse_sexp(decls_line)[0]
@@ -529,6 +543,8 @@ def gen_case(rng, idx, tier):
   if idx % 7 == 3:
     case['openloop'] = 'passes'; case['methods'] = rng.choice([1, 2, 2])
     case['reset'] = rng.choice(['sim_reset', 'sim_reset', 'none']); case.pop('big', None)
+  elif idx % 4 == 1 and depth > 0:
+    case['nrep'] = rng.randint(1, 3)
   elif q < 0.3: case['nonpure'] = rng.choice(['method', 'update_once'])
   elif q < 0.45: case['poke'] = True
   if ncyc > 4 and rng.random() < 0.1: case['midreset'] = rng.randint(1, ncyc - 1)
@@ -555,6 +571,7 @@ def run_case(ck, case, pending):
   st = ctx['stats'] if ctx else (0, 0, 0, 0)
   ck.count(case, st[0] > 0 and st[1] > 0)
   ck.hist('depth', case['depth']); ck.hist('reset', case['reset'])
+  ck.hist('components_replaced_after_elaborate', getattr(r, 'nrep', 0))
   ck.hist('tick', 'open loop (method driven, ' + case['openloop'] + ')' if case.get('openloop') else 'not pure RTL (dump before any update block)' if not r.pure else 'pure RTL, inputs poked again after eval' if case.get('poke') else 'pure RTL')
   ck.hist('cycles', '0' if N == 0 else '1-9' if N < 10 else '10-29' if N < 30 else '30+')
   ck.hist('signals', min(300, (len(r.sigs) // 20) * 20))
@@ -584,7 +601,7 @@ def flush(ck, pending):
 
 def run(ck):
   rng = ck.rng
-  total = 400 if ck.tier == 'quick' else 12000
+  total = 340 if ck.tier == 'quick' else 12000
   budget = 45 if ck.tier == 'quick' else 480
   pending = []
   done = 0
